@@ -137,12 +137,24 @@ func fileIdEnd(data []byte) (int, bool) {
 // completeDataRecords: the number of data records lying completely inside the bytes given (the
 // stream may be cut anywhere), from the bytes alone. Definitions are tracked per local type.
 func completeDataRecords(data []byte) int {
+	n, _ := completeDataRecordsEnd(data)
+	return n
+}
+
+// completeDataRecordsEnd: also the offset in data just behind the last complete data record
+// (the header size if there is none)
+func completeDataRecordsEnd(data []byte) (int, int) {
+	n, end := completeDataRecords0(data)
+	return n, end
+}
+
+func completeDataRecords0(data []byte) (int, int) {
 	if len(data) < 12 {
-		return 0
+		return 0, 0
 	}
 	hs := int(data[0])
 	if (hs != 12 && hs != 14) || len(data) < hs {
-		return 0
+		return 0, 0
 	}
 	end := len(data)
 	if ds := int(binary.LittleEndian.Uint32(data[4:8])); hs+ds < end {
@@ -152,6 +164,7 @@ func completeDataRecords(data []byte) int {
 	var size [16]int
 	var have [16]bool
 	n, p := 0, 0
+	last := 0
 	for p < len(b) {
 		h := b[p]
 		p++
@@ -159,18 +172,19 @@ func completeDataRecords(data []byte) int {
 		case h&0x80 != 0:
 			l := (h >> 5) & 3
 			if !have[l] || p+size[l] > len(b) {
-				return n
+				return n, hs + last
 			}
 			n++
 			p += size[l]
+			last = p
 		case h&0x40 != 0:
 			if p+5 > len(b) {
-				return n
+				return n, hs + last
 			}
 			nf := int(b[p+4])
 			p += 5
 			if p+3*nf > len(b) {
-				return n
+				return n, hs + last
 			}
 			sz := 0
 			for i := 0; i < nf; i++ {
@@ -179,12 +193,12 @@ func completeDataRecords(data []byte) int {
 			p += 3 * nf
 			if h&0x20 != 0 {
 				if p >= len(b) {
-					return n
+					return n, hs + last
 				}
 				nd := int(b[p])
 				p++
 				if p+3*nd > len(b) {
-					return n
+					return n, hs + last
 				}
 				for i := 0; i < nd; i++ {
 					sz += int(b[p+3*i+1])
@@ -195,11 +209,12 @@ func completeDataRecords(data []byte) int {
 		default:
 			l := h & 0x0F
 			if !have[l] || p+size[l] > len(b) {
-				return n
+				return n, hs + last
 			}
 			n++
 			p += size[l]
+			last = p
 		}
 	}
-	return n
+	return n, hs + last
 }
